@@ -915,12 +915,30 @@ def run_dataset(ctx, i):
     pf = PolygonFilter(axes=f["axes"], points=f["points"], inverted=f["inverted"])
     ds.polygon_filter_add(pf)
     hist = []
+    pf_expected = None
     try:
         for step in range(int(rng.integers(3, 9))):
             r = rng.random()
-            if step and r < 0.45:
+            if step and r < 0.25:
                 pf.inverted = not pf.inverted
                 hist.append(["invert", bool(pf.inverted)])
+            elif step and r < 0.45:
+                # the documented way to obtain the complement: an inverted copy (of a filter
+                # that may itself be inverted already) replaces the filter
+                was = bool(pf.inverted)
+                pf2 = pf.copy(invert=True)
+                ctx.check("copy_invert_flag", bool(pf2.inverted) == (not was),
+                          lambda: {"history": hist[-8:], "inverted_before": was,
+                                   "inverted_copy": bool(pf2.inverted)},
+                          message=f"copy(invert=True) of a filter with inverted={was} has "
+                                  f"inverted={pf2.inverted}")
+                ds.polygon_filter_rm(pf)
+                ds.polygon_filter_add(pf2)
+                pf = pf2
+                expected_inverted = not was
+                hist.append(["replaced by copy(invert=True)", expected_inverted])
+                # the oracle below uses the flag the copy *should* have
+                pf_expected = expected_inverted
             elif step and r < 0.6:
                 lo, hi = sorted(rng.normal(size=2))
                 ds.config["filtering"][other + " min"] = float(lo)
@@ -943,7 +961,8 @@ def run_dataset(ctx, i):
                 ins = np.array(cl["inside"], bool)
                 mask = ~(np.array(cl["near_e"], bool) | np.array(cl["near"], bool)
                          | np.array(cl["onb"], bool))
-            exp = ins ^ bool(pf.inverted)
+            exp = ins ^ bool(pf.inverted if pf_expected is None else pf_expected)
+            pf_expected = None
             ctx.ev("dataset_filter_exact", int(mask.sum()))
             bad = (got != exp) & mask
             if bad.any():
